@@ -265,12 +265,28 @@ Definition tcase_model (c : tcase) : tres :=
 Definition otext_eqb (a : option text) (b : text) : bool :=
   match a with Some t => text_eqb t b | None => false end.
 
+(* `<invalid expression` : the placeholder SymbolTable::print_expression (and, since the
+   C09 repair, the builders' Display) writes for an op list that breaks the stack discipline.
+   Such items are outside the property (nothing parses to them); the model printer answers
+   None, and the implementation may panic (before the repair) or print the placeholder. *)
+Definition invalid_marker : text :=
+  [60; 105; 110; 118; 97; 108; 105; 100; 32; 101; 120; 112; 114; 101; 115; 115; 105; 111; 110]%N.
+Fixpoint is_prefix (p t : text) : bool :=
+  match p, t with
+  | [], _ => true
+  | x :: p', y :: t' => N.eqb x y && is_prefix p' t'
+  | _, [] => false
+  end.
+Fixpoint has_sub (p t : text) : bool :=
+  is_prefix p t || match t with [] => false | _ :: t' => has_sub p t' end.
+
 (* The correspondence accepts the unchanged printer (no escaping), the repaired one
    (escaping), and any other text that parses back (model parser) to the item -- the
    behaviour the property demands; only a printed text that does not come back is reported. *)
 Definition tcase_agrees (c : tcase) : bool :=
   match c, tcase_model c with
   | CPrint _ None, MPrinted None _ _ _ => true
+  | CPrint _ (Some b), MPrinted None None _ _ => has_sub invalid_marker (utf8 b)
   | CPrint i (Some b), MPrinted f r back _ =>
       let t := utf8 b in otext_eqb f t || otext_eqb r t || back
   | CParse _ _ (ROk i), MParsed (Some j) => item_equiv (dec_item i) j
